@@ -29,7 +29,20 @@ def gen_envs(rng, n_envs, quick=True):
         # command-line options (`--verbose` replaces -q/--quick: log records go to stdout and are filtered out)
         env["flags"] = rng.weighted([([], 18), (["--profile"], 2), (["--no-pb"], 2), (["--verbose"], 1)])
         # environment variables
-        env["vars"] = rng.weighted([({}, 8), ({"RUST_BACKTRACE": "1"}, 1), ({"TMPDIR": "/dev/shm"}, 1), ({"PWD": "/nonexistent/elsewhere"}, 1)])
+        env["vars"] = rng.weighted([({}, 10), ({"RUST_BACKTRACE": "1"}, 1), ({"TMPDIR": "/dev/shm"}, 1), ({"PWD": "/nonexistent/elsewhere"}, 1),
+                                    ({"CLICOLOR_FORCE": "1"}, 1), ({"SIMWORLD_CLOCK": "freeze"}, 2)])
+        # the command is started in a directory that has been removed since (getcwd fails); files are named absolutely
+        if rng.chance(1, 12):
+            env["start"] = "gone"
+        # the environment fails for good: stdout cannot be written any more from some write on, or no bytecode file can be
+        # opened (a read-only or foreign-owned project directory).  The command may fail; if it reports success, what it
+        # printed must be what the model prints
+        if rng.chance(1, 10):
+            env["hard"] = rng.choice([{"id": "h", "call": "write", "pat": "<stdout>", "nth": "%d+" % rng.range(1, 6), "act": "errno:" + rng.choice(["ENOSPC", "EIO"])},
+                                      {"id": "h", "call": "open", "pat": "*.mmm", "nth": "*", "act": "rdonly"}])
+            if env["hard"]["act"] == "rdonly":
+                # ... and what lies there is a loadable artefact: of something else, or of an earlier revision of this project
+                env["dirty"] = {"kind": rng.choice(["other_program", "older_revision", "older_revision"]), "fill": rng.hexbytes(8)}
         envs.append(env)
     return envs
 
@@ -38,30 +51,31 @@ LOG_RECORD = None
 
 
 def program_output(final, env):
-    """stdout of the program itself: without the logger's records (--verbose) and without the profile report."""
+    """stdout of the program itself: without the logger's records (--verbose), the banner printed without -q and the
+    profile report.  Colour escapes are tolerated in those parts only: what the program prints is compared as it is."""
     import re
     global LOG_RECORD
     out = core.text(final["out"])
     flags = env.get("flags") or []
+    esc = r"(?:\x1b\[[0-9;]*m)*"
     if "--verbose" in flags:
         if LOG_RECORD is None:
-            LOG_RECORD = re.compile(r"^\[ (Trace|Debug|Info|Warning|Warn|Error) \] .*\n?", re.M)
+            LOG_RECORD = re.compile(r"^" + esc + r"\[ (Trace|Debug|Info|Warning|Warn|Error) \]" + esc + r" .*\n?", re.M)
         out = LOG_RECORD.sub("", out)
         # a record may span several lines; its continuation lines are indented with a tab (stack and variable dumps)
         out = re.sub(r"^\t.*\n?", "", out, flags=re.M)
         # without -q the CLI prints a banner before the program starts
-        out = re.sub(r"\A\n*Compiled in [^\n]*\n\n(Running\.\.\.\n\n)?", "", out)
+        out = re.sub(r"\A\n*" + esc + r"Compiled in [^\n]*\n\n(" + esc + r"Running\.\.\." + esc + r"\n\n)?", "", out)
     if "--profile" in flags and final["args"][0] == "run":
-        # the report follows the program's output after one empty line
-        cut = out.rfind("\nRuntime Profile:")
-        if cut >= 0:
-            out = out[:cut]
+        out = core.strip_profile(out)
     return out
 
 
 def invocation(env, files, entry):
     """-> (files as laid out in the world, cwd relative to the world, spelled entry path, run flags, compile flags, extra env)"""
     sub = env.get("subdir")
+    if env.get("start") == "gone":
+        sub = None
     flags = list(env.get("flags") or [])
     verbose = "--verbose" in flags
     run_flags = ([] if verbose else ["-q"]) + flags
@@ -82,8 +96,12 @@ def run_case(case):
     st_probes = {}
     verdict = None
     for i, env in enumerate(case["envs"]):
-        plan = {"seed": env["seed"], "rules": env["rules"]}
+        erules = env["rules"] + ([env["hard"]] if env.get("hard") else [])
+        plan = {"seed": env["seed"], "rules": erules}
         wfiles, rel_cwd, spelled, run_flags, compile_flags, xenv = invocation(env, files, entry)
+        gone = env.get("start") == "gone"
+        if gone:
+            st_probes["started_in_a_removed_directory"] = 1
         if env.get("subdir"):
             st_probes["project_path_contains_hash_or_space"] = 1
         if "--verbose" in run_flags:
@@ -93,26 +111,31 @@ def run_case(case):
         if env["mode"] == "run":
             world = core.fresh_world(wfiles, sub="m%d" % i)
             if env.get("dirty"):
-                pipeline.place_dirty(world, env, pipeline.module_artefacts(wfiles, spelled))
+                pipeline.place_dirty(world, env, pipeline.module_artefacts(wfiles, spelled), sources=wfiles, entry=(env["subdir"] + "/" + entry) if (env.get("subdir") and env.get("start") != "gone") else entry)
                 st_probes["stale_artefacts_present"] = 1
-            p = core.run_cmd(os.path.join(world, rel_cwd), ["run", spelled] + run_flags, plan=plan, gc=env["gc"], extra_env=xenv, nofile=env.get("nofile"))
+            if gone:
+                spelled = os.path.join(world, rel_cwd, spelled)
+            p = core.run_cmd(os.path.join(world, rel_cwd), ["run", spelled] + run_flags, plan=plan, gc=env["gc"], extra_env=xenv, nofile=env.get("nofile"),
+                             gone_cwd=gone)
             procs.append(p)
             rules.append(env["rules"])
             final = p
         else:
             world = core.fresh_world(wfiles, sub="m%d" % i)
             if env.get("dirty"):
-                pipeline.place_dirty(world, env, pipeline.module_artefacts(wfiles, spelled))
+                pipeline.place_dirty(world, env, pipeline.module_artefacts(wfiles, spelled), sources=wfiles, entry=(env["subdir"] + "/" + entry) if (env.get("subdir") and env.get("start") != "gone") else entry)
                 st_probes["stale_artefacts_present"] = 1
             cwd = os.path.join(world, rel_cwd)
-            c = core.run_cmd(cwd, ["compile", spelled] + compile_flags, plan=plan, extra_env=xenv, nofile=env.get("nofile"))
+            if gone:
+                spelled = os.path.join(cwd, spelled)
+            c = core.run_cmd(cwd, ["compile", spelled] + compile_flags, plan=plan, extra_env=xenv, nofile=env.get("nofile"), gone_cwd=gone)
             procs.append(c)
             rules.append(env["rules"])
             if c["rc"] != 0:
                 final = c
             else:
                 p = core.run_cmd(cwd, ["execute", spelled[:-3] + ".mmm"],
-                                 plan={"seed": env["seed2"], "rules": env["rules"]}, gc=env["gc"], extra_env=xenv, nofile=env.get("nofile"))
+                                 plan={"seed": env["seed2"], "rules": erules}, gc=env["gc"], extra_env=xenv, nofile=env.get("nofile"), gone_cwd=gone)
                 procs.append(p)
                 rules.append(env["rules"])
                 final = p
@@ -128,6 +151,11 @@ def run_case(case):
                 st_probes["bytecode_file_opened_more_than_once"] = 1
             if final["args"][0] == "execute" and writes:
                 st_probes["execute_wrote_bytecode"] = 1
+        hard_hit = any(e["rule"] == "h" for q in procs for e in q["events"])
+        if hard_hit:
+            st_probes["environment_failed_for_good"] = 1
+        if verdict is None and hard_hit and final["rc"] != 0 and not final["timeout"]:
+            continue      # the command failed in a failing environment: nothing to judge
         if verdict is None:
             out = program_output(final, env)
             msg = None
@@ -189,7 +217,7 @@ def shrink(case):
             c = copy.deepcopy(case)
             c["envs"][i]["dirty"] = None
             yield c
-        for key, neutral in (("subdir", None), ("flags", []), ("vars", {})):
+        for key, neutral in (("subdir", None), ("flags", []), ("vars", {}), ("start", None), ("hard", None)):
             if e.get(key):
                 c = copy.deepcopy(case)
                 c["envs"][i][key] = neutral
